@@ -12,8 +12,9 @@ Traces == ndJsonDeserialize(IOEnv.TRACE_FILE)
 Files == {"quick", "data"}
 Loadable == {"valid", "stale", "junk"}               \* a complete pickle unpickles (junk = complete pickle of a foreign type); anything else fails somehow
 VARIABLES tid, l, file, lock, live, solo,
-          handle     \* per process: the file it has open for reading and the content of that inode ([f, k]); POSIX: an unlinked file stays readable through an open handle
-vars == <<tid, l, file, lock, live, solo, handle>>
+          handle,    \* per process: the file it has open for reading and the content of that inode ([f, k]); POSIX: an unlinked file stays readable through an open handle
+          dir        \* the cache folder exists (a cold cache may start without it; two processes may both find it missing and both create it)
+vars == <<tid, l, file, lock, live, solo, handle, dir>>
 T == Traces[tid].ev
 E == T[l]
 Is(e) == l <= Len(T) /\ E.ev = e
@@ -21,25 +22,31 @@ Adv == l' = l + 1 /\ UNCHANGED tid
 Init == /\ tid \in 1..Len(Traces) /\ l = 1
         /\ file = [f \in Files |-> Traces[tid].init[f]]       \* missing | empty | partial | valid | stale | junk  (prepared by the scenario)
         /\ lock = [f \in Files |-> "none"] /\ live = {} /\ solo = "none" /\ handle = [p \in {} |-> 0] /\ TLCSet(tid, 1)
-Keep == UNCHANGED <<file, lock, handle>>
+        /\ dir = Traces[tid].init.dir /\ (~dir => \A f \in Files : file[f] = "missing")
+Keep == UNCHANGED <<file, lock, handle, dir>>
 H(p) == IF p \in DOMAIN handle THEN handle[p] ELSE [f |-> "none", k |-> "none"]
 \* a write to the inode of file f is seen by every handle that is still attached to it
 Rewrite(f, k) == [p \in DOMAIN handle |-> IF handle[p].f = f THEN [f |-> f, k |-> k] ELSE handle[p]]
 Detach(f) == [p \in DOMAIN handle |-> IF handle[p].f = f THEN [f |-> "unlinked", k |-> handle[p].k] ELSE handle[p]]
 Start   == Is("start") /\ E.p \notin live /\ live' = live \cup {E.p} /\ solo' = (IF live = {} THEN E.p ELSE "none") /\ Keep /\ Adv
 Exists  == Is("exists") /\ E.p \in live /\ E.r = (file[E.file] # "missing") /\ Keep /\ UNCHANGED <<live, solo>> /\ Adv
-Acquire == Is("acquire") /\ E.p \in live /\ lock[E.file] = "none" /\ lock' = [lock EXCEPT ![E.file] = E.p] /\ UNCHANGED <<file, live, solo, handle>> /\ Adv
-Release == Is("release") /\ E.p \in live /\ lock[E.file] = E.p /\ lock' = [lock EXCEPT ![E.file] = "none"] /\ UNCHANGED <<file, live, solo, handle>> /\ Adv
-OpenW   == Is("open") /\ E.p \in live /\ E.mode = "wb" /\ E.ok /\ file' = [file EXCEPT ![E.file] = "empty"] /\ handle' = Rewrite(E.file, "empty") /\ UNCHANGED <<lock, live, solo>> /\ Adv   \* truncates in place
+Acquire == Is("acquire") /\ E.p \in live /\ lock[E.file] = "none" /\ lock' = [lock EXCEPT ![E.file] = E.p] /\ UNCHANGED <<file, live, solo, handle, dir>> /\ Adv
+Release == Is("release") /\ E.p \in live /\ lock[E.file] = E.p /\ lock' = [lock EXCEPT ![E.file] = "none"] /\ UNCHANGED <<file, live, solo, handle, dir>> /\ Adv
+OpenW   == Is("open") /\ E.p \in live /\ E.mode = "wb" /\ E.ok /\ file' = [file EXCEPT ![E.file] = "empty"] /\ handle' = Rewrite(E.file, "empty") /\ dir /\ UNCHANGED <<lock, live, solo, dir>> /\ Adv   \* truncates in place
 OpenR   == /\ Is("open") /\ E.p \in live /\ E.mode = "rb" /\ E.ok = (file[E.file] # "missing")
            /\ handle' = (IF E.ok THEN (E.p :> [f |-> E.file, k |-> file[E.file]]) @@ handle ELSE handle)
-           /\ UNCHANGED <<file, lock, live, solo>> /\ Adv
+           /\ UNCHANGED <<file, lock, live, solo, dir>> /\ Adv
+\* a file cannot be created in a folder that does not exist
+OpenWNoDir == Is("open") /\ E.p \in live /\ E.mode = "wb" /\ ~E.ok /\ ~dir /\ Keep /\ UNCHANGED <<live, solo>> /\ Adv
+\* the folder: a test for it answers truthfully; creating it succeeds when it is missing, and on an existing folder exactly when the caller said exist_ok
+DirExists == Is("direxists") /\ E.p \in live /\ E.r = dir /\ Keep /\ UNCHANGED <<live, solo>> /\ Adv
+MkDir     == Is("mkdir") /\ E.p \in live /\ E.ok = (~dir \/ E.r) /\ dir' = TRUE /\ UNCHANGED <<file, lock, handle, live, solo>> /\ Adv      \* E.r: exist_ok
 Load    == Is("load") /\ E.p \in live /\ (E.res = "ok") = (H(E.p).k \in Loadable) /\ Keep /\ UNCHANGED <<live, solo>> /\ Adv     \* what the open handle holds
-Dump    == Is("dump") /\ E.p \in live /\ file[E.file] \in {"empty", "partial"} /\ file' = [file EXCEPT ![E.file] = "valid"] /\ handle' = Rewrite(E.file, "valid") /\ UNCHANGED <<lock, live, solo>> /\ Adv
-Remove  == Is("remove") /\ E.p \in live /\ E.ok = (file[E.file] # "missing") /\ file' = [file EXCEPT ![E.file] = "missing"] /\ handle' = Detach(E.file) /\ UNCHANGED <<lock, live, solo>> /\ Adv
+Dump    == Is("dump") /\ E.p \in live /\ file[E.file] \in {"empty", "partial"} /\ file' = [file EXCEPT ![E.file] = "valid"] /\ handle' = Rewrite(E.file, "valid") /\ UNCHANGED <<lock, live, solo, dir>> /\ Adv
+Remove  == Is("remove") /\ E.p \in live /\ E.ok = (file[E.file] # "missing") /\ file' = [file EXCEPT ![E.file] = "missing"] /\ handle' = Detach(E.file) /\ UNCHANGED <<lock, live, solo, dir>> /\ Adv
 Killed  == /\ Is("killed") /\ E.p \in live /\ live' = live \ {E.p}
            /\ lock' = [f \in Files |-> IF lock[f] = E.p THEN "none" ELSE lock[f]]      \* the kernel drops a dead holder's lock, the file stays as it is
-           /\ solo' = "none" /\ UNCHANGED <<file, handle>> /\ Adv
+           /\ solo' = "none" /\ UNCHANGED <<file, handle, dir>> /\ Adv
 \* ---- outcome monitor
 Done    == /\ Is("done") /\ E.p \in live /\ live' = live \ {E.p}
            /\ E.digest = Traces[tid].truth                                           \* AnswersTrue
@@ -47,8 +54,8 @@ Done    == /\ Is("done") /\ E.p \in live /\ live' = live \ {E.p}
            /\ (solo = E.p => \A f \in Files : file[f] = "valid")                     \* Repaired: a process that ran alone leaves valid caches
            /\ solo' = "none" /\ Keep /\ Adv
 \* independent classification of the files at the end of the scenario (by a probe outside the scheduled processes)
-Final   == Is("final") /\ live = {} /\ \A f \in Files : E.state[f] = file[f] /\ UNCHANGED <<file, lock, live, solo, handle>> /\ Adv
-Next == Start \/ Exists \/ Acquire \/ Release \/ OpenW \/ OpenR \/ Load \/ Dump \/ Remove \/ Killed \/ Done \/ Final
+Final   == Is("final") /\ live = {} /\ \A f \in Files : E.state[f] = file[f] /\ UNCHANGED <<file, lock, live, solo, handle, dir>> /\ Adv
+Next == Start \/ Exists \/ DirExists \/ MkDir \/ Acquire \/ Release \/ OpenW \/ OpenWNoDir \/ OpenR \/ Load \/ Dump \/ Remove \/ Killed \/ Done \/ Final
 Constr == IF TLCGet(tid) < l THEN TLCSet(tid, l) ELSE TRUE
 Post == \A i \in 1..Len(Traces) : \/ TLCGet(i) - 1 = Len(Traces[i].ev)
           \/ PrintT(<<"REJ", Traces[i].id, TLCGet(i) - 1, Len(Traces[i].ev), Traces[i].ev[IF TLCGet(i) <= Len(Traces[i].ev) THEN TLCGet(i) ELSE Len(Traces[i].ev)].ev>>)
